@@ -42,25 +42,30 @@ structure Side where
   plan : Except String Plan
   ans : Json
 
-def judgeSide (g : Graph) (connected : Bool) (ref cols : List String) (s : Side) : (Option String) × List String × Json :=
+/-- verdict of one optimized plan: (oracle failure, tags, model JSON, explained by deviation `blindRelations`?) -/
+def judgeSide (g : Graph) (connected : Bool) (ref cols : List String) (s : Side) : (Option String) × List String × Json × Bool :=
   match s.plan with
-  | .error e => (none, [s.label ++ "_err"], Json.mkObj [("err", e)])
+  | .error e => (none, [s.label ++ "_err"], Json.mkObj [("err", e)], false)
   | .ok p =>
     match extract p with
     | none =>
       -- no join region left: only legal when the graph has a single relation
-      if g.rels.length ≤ 1 then (none, [], Json.str "no-region")
-      else (some s!"{s.label}: the optimized plan has no inner-join region although the query joins {g.rels.length} relations", [], Json.str "no-region")
+      if g.rels.length ≤ 1 then (none, [], Json.str "no-region", false)
+      else (some s!"{s.label}: the optimized plan has no inner-join region although the query joins {g.rels.length} relations", [], Json.str "no-region", false)
     | some ex =>
       match toTree ref cols ex.names ex.tree with
-      | none => (some s!"{s.label}: a relation of the optimized plan ({ex.names}) is not a relation of the query ({ref})", [], Json.str "foreign-relation")
+      | none => (some s!"{s.label}: a relation of the optimized plan ({ex.names}) is not a relation of the query ({ref})", [], Json.str "foreign-relation", false)
       | some t =>
         let ok := validReorder g t
         let tags := (if hasPacked p then [s.label ++ "_packed"] else []) ++ (if isBushy t then [s.label ++ "_bushy"] else [])
           ++ (if hasFilt t then [s.label ++ "_filter_pred"] else []) ++ (if ex.tree.crossCount > 0 then [s.label ++ "_has_cross"] else [])
           ++ (if t.leaves != g.rels then [s.label ++ "_reordered"] else [])
         let o := if connected && !ok then some s!"{s.label}: {diagnose g t}" else none
-        (o, tags, Json.mkObj [("valid", ok), ("leaves", Driver.jNatList t.leaves)])
+        -- deviation `blindRelations`: relations whose sub-plan is rooted in a Project (JoinReorder names them "project")
+        let blind := (ex.names.zip ex.projLeaf).filterMap (fun (n, b) => if b then indexOf? n ref else none)
+        let excused := !ok && !blind.isEmpty && validReorderDev g blind t
+        (o, tags ++ (if blind.isEmpty then [] else [s.label ++ "_project_leaf"]),
+         Json.mkObj [("valid", ok), ("leaves", Driver.jNatList t.leaves), ("blind", Driver.jNatList blind), ("valid_blind", excused)], excused)
 
 def handler : Driver.Handler := fun c i => do
   let gj ← Driver.getObj c "graph"
@@ -72,8 +77,7 @@ def handler : Driver.Handler := fun c i => do
   let layout := (Driver.getStr c "layout").toOption.getD "?"
   let baseTags := ["shape_" ++ shape, "naming_" ++ naming, "form_" ++ form, "layout_" ++ layout]
   if let .ok e := i.getObjValAs? String "harness_err" then throw s!"harness: {e}"
-  if let .ok m := i.getObjValAs? String "panic" then
-    return { model := Json.null, k := false, oracle := some s!"panic: {m}", tags := baseTags ++ ["panic"] }
+  if let .ok m := i.getObjValAs? String "panic" then throw s!"harness panic: {m}"
   let bound ← PlanJson.planOrErr (← Driver.getObj i "bound")
   let opt ← PlanJson.planOrErr (← Driver.getObj i "opt")
   let jr ← PlanJson.planOrErr (← Driver.getObj i "jr")
@@ -110,8 +114,8 @@ def handler : Driver.Handler := fun c i => do
       | none => false
     let connected : Bool := (greedyTree g).isSome
     let wfg : Bool := wellFormedB g
-    let (oO, tO, mO) := judgeSide g connected ref cols { label := "opt", plan := opt, ans := ansO }
-    let (oJ, tJ, mJ) := judgeSide g connected ref cols { label := "jr", plan := jr, ans := ansJ }
+    let (oO, tO, mO, exO) := judgeSide g connected ref cols { label := "opt", plan := opt, ans := ansO }
+    let (oJ, tJ, mJ, _) := judgeSide g connected ref cols { label := "jr", plan := jr, ans := ansJ }
     -- answers: optimized vs unoptimized, whenever the unoptimized plan ran
     let ran (a : Json) : Bool := (a.getObjVal? "rows").toOption.isSome || (a.getObjVal? "digest").toOption.isSome
     let ansCheck (label : String) (a : Json) (planOk : Bool) : Option String :=
@@ -121,11 +125,19 @@ def handler : Driver.Handler := fun c i => do
     let oA := ansCheck "opt" ansO (match opt with | .ok _ => true | _ => false)
     let oB := ansCheck "jr" ansJ (match jr with | .ok _ => true | _ => false)
     let oracle := oO <|> oJ <|> oA <|> oB
+    -- Finding C32-F1: the ONLY failure is the production plan's cross product, it is explained by the deviation
+    -- (every product node is crossed by invisible predicates only), and JoinReorder alone on the bound plan
+    -- (no Project wrapper yet — the neutraliser) passes the strict checker; anything else stays a VIOLATION.
+    let attr : Option String :=
+      if oO.isSome && exO && oJ.isNone && oA.isNone && oB.isNone && (match jr with | .ok _ => true | _ => false) then some "C32-F1" else none
     let errTags := (if ran ansB then [] else ["unopt_not_run"])
     let planErr := (match opt with | .error _ => true | _ => false) || (match jr with | .error _ => true | _ => false)
     let model := Json.mkObj [("connected", Json.bool connected), ("well_formed", Json.bool wfg), ("graph_agrees", Json.bool graphAgrees),
       ("greedy_leaves", match greedyTree g with | some t => Driver.jNatList t.leaves | none => Json.null), ("opt", mO), ("jr", mJ)]
-    pure { model := model, k := graphAgrees && !planErr, oracle := oracle, nt := connected && ref.length ≥ 3,
-           tags := baseTags ++ [if connected then "connected" else "disconnected", s!"n{ref.length}"] ++ tO ++ tJ ++ errTags }
+    -- plans the optimizer failed to produce are C31's business: tagged (`opt_err`, `jr_err`), not judged here
+    let _ := planErr
+    pure { model := model, k := graphAgrees, oracle := oracle, nt := connected && ref.length ≥ 3, attr := attr,
+           tags := baseTags ++ [if connected then "connected" else "disconnected", s!"n{ref.length}"] ++ tO ++ tJ ++ errTags
+                   ++ (if attr.isSome then ["attr_C32-F1"] else []) }
 
 end Driver.C32
